@@ -221,8 +221,11 @@ def run_shard(args):
     rc, o = run(["timeout", "-k", "2", "1500", ZV, mode, jp], timeout=1600)
     got = {}
     if os.path.exists(out):
-        for l in open(out):
-            r = json.loads(l)
+        for l in open(out, errors="replace"):
+            try:
+                r = json.loads(l)
+            except ValueError:
+                break
             got[r["id"]] = r
     lines = []
     for c in cases:
